@@ -47,5 +47,15 @@ PROPS['C03'] = {
             'bounded unit); _calls of tensor_ops / pspace_ops / transforms are not under contract here',
     'technique': 'contract-based deductive verification: refinement of the call contract by the real __call__ (symbolic execution, z3), per-class implementation contracts',
 }
+PROPS['C05'] = {
+    'level': 'proof',
+    'text': 'Deductive: the adjoint returned by each of the 7 operator-expression classes (abstract linear operands known only through Adj(A, A*)) '
+            'and by the pointwise / rank-one default operators on an arbitrary weighted space is proved to satisfy <Ax,y> = <x,A*y> for all x, y '
+            '(Gram normal form: sesquilinearity, adjoint law, conjugate-multiplication law; summand-wise on the documented weighted sum), to map range to domain '
+            'and to have an adjoint acting like the operator; non-linear instances must raise. Finite-difference / resizing transposes: C13 / C16.',
+    'note': 'trusted: pyvc interpreter, C01/C03/C04 contracts, inner product = positive weighted sum (C02). Not under contract: MatrixOperator, sampling, '
+            'block operators, FFT/wavelet/ray transforms (external kernels); non-uniformly weighted discretizations for difference/resizing operators',
+    'technique': 'contract-based deductive verification: adjoint identity as a postcondition over abstract inner products (Gram normal form), z3',
+}
 for _k in PROPS:
     NOT_APPLICABLE.pop(_k, None)
